@@ -100,8 +100,13 @@ TPanic == /\ IsEvent("panic")
 TExit == /\ IsEvent("exit")
          /\ (Ev.code = 0) <=> (phase = "done")
          /\ (Ev.code # 0) => (phase = "crashed")
-         /\ \A p \in Procs : p <= n => \E k \in 1..Len(Ev.outs) : Ev.outs[k].file = files[p] /\ (phase = "done" => (Ev.outs[k].formatted <=> touched[p]))
-         /\ Len(Ev.outs) = Cardinality(written)          \* nothing else was written
+         /\ LET onDisk == {Ev.outs[k].file : k \in 1..Len(Ev.outs)} IN
+            IF phase = "done"
+            THEN /\ \A p \in Procs : p <= n => \E k \in 1..Len(Ev.outs) : Ev.outs[k].file = files[p] /\ (Ev.outs[k].formatted <=> touched[p])
+                 /\ Len(Ev.outs) = n                                   \* nothing else was written
+            \* a crashed run: everything announced as written is on disk (main may have written more
+            \* files between the panic and the death of the process, without announcing them)
+            ELSE \A p \in written : files[p] \in onDisk
          /\ UNCHANGED pvars /\ UNCHANGED <<files, dartLeft>>
 
 Silent == /\ \E p \in Procs : P!GCall(p) \/ (P!Alive /\ (P!F!AcquireHit(p) \/ P!F!Release(p)) /\ UNCHANGED <<phase, written, n, fmtOf>>) \/ P!GReturn(p)
@@ -111,7 +116,12 @@ TraceNext == TConfig \/ TWritten \/ TProbeStart \/ TProbeEnd \/ TRunStart \/ TRu
 TraceSpec == TraceInit /\ [][TraceNext]_tvars
 
 ASSUME TLCSet(2, 1)
-HWM == IF l > TLCGet(2) THEN TLCSet(2, l) ELSE TRUE
+\* the high-water mark of consumed lines; once every line is explained the verdict is written and the
+\* search stops (depth-first queue: the end of an accepted trace is reached without visiting every interleaving)
+HWM == /\ IF l > TLCGet(2) THEN TLCSet(2, l) ELSE TRUE
+       /\ IF l = Len(Trace) + 1
+          THEN ndJsonSerialize(IOEnv.VERIF_OUT, <<[hwm |-> l, len |-> Len(Trace)]>>) /\ TLCSet("exit", TRUE)
+          ELSE TRUE
 Post == ndJsonSerialize(IOEnv.VERIF_OUT, <<[hwm |-> TLCGet(2), len |-> Len(Trace)]>>)
 
 FormatAfterWrite == P!FormatAfterWrite
